@@ -81,7 +81,7 @@ def main():
     m = {
         "version": 1,
         "setup_cmd": "cd /verif && ./setup.sh",
-        "hooks": {"guard": "verif", "enable": "go build -tags verif -overlay /verif/.build/overlay.json ./internal/zzverif (harness sources live in /verif/harness and are injected at build time: /verif/harness/zzverif as package internal/zzverif, /verif/harness/astdiff/zz_verif_dump.go as one added file of package internal/astdiff that prints its snapshot values; nothing is committed to /repo)",
+        "hooks": {"guard": "verif", "enable": "go build -tags verif -overlay /verif/.build/overlay.json ./internal/zzverif (harness sources live in /verif/harness and are injected at build time: /verif/harness/zzverif as package internal/zzverif, /verif/harness/astdiff/zz_verif_dump.go as one added file of package internal/astdiff that prints its snapshot values, /verif/harness/engine/zz_verif_changelog.go as one added file of package internal/engine that lists the two interval sets of a Changelog; nothing is committed to /repo)",
                   "baseline_off_cmd": "cd /repo && GOFLAGS=-mod=mod go test -vet=off -count=1 ./...", "source_commits": [], "add_only": True},
         "engines": [{"name": "lean-model+go-harness", "path": "/verif/lean, /verif/harness, /verif/lib",
                      "serves_properties": [c["property_id"] for c in checks],
